@@ -203,7 +203,9 @@ ExitCurrent(s, new) ==                    \* _exit_current_state
 
 EnterNext(s, new) ==                      \* _enter_next_state
   LET last == s.st
-      a == IF s.closed THEN Ok(s, None)
+      \* known finding D11: close() dropped the event callbacks, a later transition (only reachable when a
+      \* termination hook raises) changes the label but neither the future nor the listeners
+      a == IF s.closed THEN Ok(Dev(s, "D11"), None)
            ELSE Then(OnEntering(s, new), LAMBDA t : Hook(t, "cb_entering"))
   IN IF a.exc # NoExc THEN a ELSE
      LET s1 == [a.s EXCEPT !.st = new.label, !.cur = new,
@@ -367,13 +369,15 @@ AfterExec(s, o) ==                        \* the rest of step() once execute ret
       s2 == SetIntr([r.s EXCEPT !.stepping = FALSE], 0)         \* finally
   IN IF r.exc # NoExc THEN TaskFailed(s2, r.exc) ELSE Advance([s2 EXCEPT !.task.pc = "top"])
 
-\* Process.out(port, value) for values the output spec accepts (validation: module Ports)
+\* Process.out(port, value) for values the output spec accepts (validation: module Ports):
+\* on_output_emitting; store; on_output_emitted (listeners, then the user's override)
 RECURSIVE EmitAll(_, _)
 EmitAll(s, emits) ==
-  IF emits = <<>> THEN s
-  ELSE LET e  == Head(emits)
-           s1 == [s EXCEPT !.outputs = Append(@, e)]
-       IN EmitAll(Listeners(s1, "output", e[1]), Tail(emits))
+  IF emits = <<>> THEN Ok(s, None)
+  ELSE LET e == Head(emits) IN
+       Then(Hook(s, "on_output_emitting"), LAMBDA t :
+       Then(Hook(Listeners([t EXCEPT !.outputs = Append(@, e)], "output", e[1]), "on_output_emitted"), LAMBDA u :
+       EmitAll(u, Tail(emits))))
 
 \* the body of a user step function: log, status, outputs, planned re-entrant requests
 StepBody(s, fn) ==
@@ -388,8 +392,7 @@ StepBody(s, fn) ==
                               \cup (IF s.pausedF # "none" THEN {"stepWhilePaused"} ELSE {})]
       s1 == Note(s0, <<"step", fn, s.cur.args, s.cur.kw, s.pausedF # "none", s.status>>)
       s2 == IF d.status # None THEN [s1 EXCEPT !.status = d.status] ELSE s1
-      s3 == EmitAll(s2, d.emits)
-  IN Hook(s3, "step")
+  IN Then(EmitAll(s2, d.emits), LAMBDA t : Hook(t, "step"))
 
 StepReturn(s, fn) == [kind |-> "state", next |-> Commanded(Prog(s)[fn], <<>>)]
 \* C13 monitor: what the next step must receive according to the command that was returned
